@@ -346,7 +346,12 @@ def run(ctx):
                     break
             # plain interpretation of the source vs .so
             if src is not None:
-                r = call_impl(src[MOD_OF[fn]], fn, args)
+                try:
+                    r = call_impl(src[MOD_OF[fn]], fn, args)
+                except Exception as e:       # a construct outside the translated subset: the tie is broken, keep searching
+                    tie_broken.append("pyx2py interpretation of %s raised %r" % (fn, e))
+                    src = None
+                    r = ref
                 n_src += 1
                 if not same(ref, r):
                     ctx.violation("correspondence: source interpretation(%s) vs compiled .so" % fn,
